@@ -392,7 +392,8 @@ theorem insertAfter_one_effect {h h' : Heap} {x y p : Nat} {pre post : List Nat}
   unfold insertAfter at hr
   simp only [hxs, if_false, hp] at hr
   have hself : ([Arg.node y].any (isSelf x)) = false := by simp [isSelf, hxy]
-  simp only [hself, Bool.false_eq_true, if_false, insertAfterLoop, extractArg] at hr
+  have hself1 : isSelf x (Arg.node y) = false := by simp [isSelf, hxy]
+  simp only [hself, Bool.false_eq_true, if_false, insertAfterLoop, extractArg, hself1] at hr
   cases he : extract h y with
   | error e => simp only [he] at hr; cases hr
   | ok h1 =>
@@ -793,10 +794,11 @@ theorem insert_single_ins {h h' : Heap} {p i c : Nat} {ins : List Nat} (hc : h.k
     | some j => simp only [hidx] at hi; cases hi; rfl
 
 /-- one iteration of `insert_after`'s loop on an element argument = the one-argument call; the next anchor is that element -/
-theorem insertAfterLoop_cons_node {h h' : Heap} {p a y : Nat} {as : List Arg} (hg : Good h) (hy : h.kind y ≠ .soup)
+theorem insertAfterLoop_cons_node {h h' : Heap} {p a y : Nat} {as : List Arg} (hg : Good h) (hy : h.kind y ≠ .soup) (hya : y ≠ a)
     (hr : insertAfterLoop h p a (.node y :: as) = .ok h') :
     ∃ h2, insertAfterLoop h p a [.node y] = .ok h2 ∧ insertAfterLoop h2 p y as = .ok h' := by
-  simp only [insertAfterLoop, extractArg] at hr ⊢
+  have hself1 : isSelf a (Arg.node y) = false := by simp [isSelf, hya]
+  simp only [insertAfterLoop, extractArg, hself1, Bool.false_eq_true, if_false] at hr ⊢
   cases he : extract h y with
   | error e => simp only [he] at hr; cases hr
   | ok h1 =>
@@ -846,7 +848,7 @@ theorem insertAfter_many_effect : ∀ (ys : List Nat) (h h' : Heap) (a p : Nat) 
     have hays : a ∉ ys := fun hm => hx (by simp [hm])
     have hyk := hk y (by simp)
     rw [List.map_cons] at hr
-    obtain ⟨h2, hone, hrest⟩ := insertAfterLoop_cons_node hg.1 hyk hr
+    obtain ⟨h2, hone, hrest⟩ := insertAfterLoop_cons_node hg.1 hyk hya hr
     have hcall : insertAfter h a [.node y] = .ok h2 := by
       unfold insertAfter
       simp only [hxs, if_false, hp]
